@@ -134,7 +134,8 @@ def make_pelt(n, m, p=1, mode="c02", xdtype="float"):
         # O2: the final score is the penalised cost of exactly the returned segmentation
         acc.oblige(eng, "O2.final_score_of_returned", rv(scores[n - 1]) == seg_cost(cpts, n, pen, p), dict(info, cpts=cpts))
         _witness(eng, acc, n, m, p, cpts, scores)
-        acc.sample(dict(info, cpts=cpts, decisions=len(eng.trace), final_score=str(z3.simplify(rv(scores[n - 1])))[:200]))
+        acc.sample(dict(info, cpts=cpts, decisions=len(eng.trace), final_score=str(z3.simplify(rv(scores[n - 1])))[:200],
+                        path_condition=[str(c).replace("\n", " ")[:140] for c in eng.pc[: eng.synced][:6]]))
 
     return Harness(run, base, name=f"pelt {info}")
 
